@@ -36,6 +36,7 @@ abbrev EsId := Nat
 inductive Loc
   | none | fresh | inPool (p : PoolId) | held (e : EsId) | running (e : EsId) | cb (e : EsId)
   | blocked | done | freed
+  | reviving                       -- thread_revive has stored READY into a terminated unit; its revive event follows
 deriving DecidableEq, Repr
 
 inductive USt | ready | running | blocked | terminated
@@ -100,7 +101,7 @@ def setLoc (s : St) (u : UnitId) (l : Loc) : St := { s with loc := upd s.loc u l
 
 /-- creation or revival: a new epoch of u -/
 def stepCreate (s : St) (u : UnitId) (p : PoolId) : Option St :=
-  if s.loc u = .none ∨ s.loc u = .freed ∨ s.loc u = .done then
+  if s.loc u = .none ∨ s.loc u = .freed ∨ s.loc u = .reviving then
     some { s with loc := upd s.loc u .fresh, st := upd s.st u .ready, pool := upd s.pool u p,
                   reqJoin := upd s.reqJoin u false, reqCancel := upd s.reqCancel u false,
                   reqMig := upd s.reqMig u false, resumed := upd s.resumed u false,
@@ -133,6 +134,9 @@ def stepSetSt (s : St) (u : UnitId) (v : USt) : Option St :=
     -- yield / migration re-push (the unit is in nobody's reach) or resumption of a blocked unit
     if (match s.loc u with | .cb _ | .held _ | .fresh => true | .blocked => s.resumed u | _ => false) = true then
       some { s with st := upd s.st u .ready }
+    else if s.loc u = .done ∧ s.st u = .terminated then
+      -- thread_revive: the only way out of TERMINATED; the unit is in nobody's reach until its revive event
+      some { s with st := upd s.st u .ready, loc := upd s.loc u .reviving }
     else none
   | .running =>
     -- a scheduler that popped it, or a directed switch to a fresh / resumed unit
